@@ -15,7 +15,7 @@ CORE_TRUSTED = [
 
 SPEC = {
     'C01': dict(manual=[(['tree', 'chan', 'catchall', 'dynh', 'structural', 'prio'], 220), (['chan', 'catchall', 'dynh'], 80)],
-                run=[], kinds={'D', 'I'}, opts=dict(tree=True),
+                run=[], patterns=60, kinds={'D', 'I'}, opts=dict(tree=True),
                 nontrivial=lambda w: len(w.side['expect']) >= 3 and any(op[0] == 'do' and op[2][0] in ('reg', 'unreg', 'addH', 'rmH') for op in w.ops),
                 rule='random forests (<=4 components, channels *, n1, n2, instances; named / catch-all / global handlers; '
                      'dynamic add/removeHandler; register/unregister incl. from handlers) x histories of fires and ticks; '
@@ -45,7 +45,7 @@ SPEC = {
                      'nested), concurrent roots, raising callees, timeouts {0,1,2,5} under a real run() loop on a virtual clock; '
                      'non-trivial = a caller was resumed or timed out'),
     'C07': dict(manual=[(['tree', 'chan', 'structural', 'values'], 250), (['tree', 'structural', 'gen', 'dynh'], 80)], run=[],
-                kinds={'F', 'D', 'I'}, opts=dict(tree=True),
+                patterns=40, kinds={'F', 'D', 'I'}, opts=dict(tree=True),
                 nontrivial=lambda w: len(w.side['moves']) >= 2,
                 rule='histories over a pool of <=4 components of register (admissible only) / unregister / fire / tick of any root, '
                      'incl. nested unregistration, re-registration, unregister from handlers; non-trivial = >=2 attach/detach transitions'),
@@ -71,6 +71,8 @@ def scenarios(ctx, prop):
     for feats, n in sp['manual']:
         for _ in range(max(1, n * ctx.scale // (1 if ctx.scale == 1 else 2))):
             out.append(core_gen.gen_scenario(ctx.rng, feats))
+    for _ in range(sp.get('patterns', 0) * ctx.scale):
+        out.append(core_gen.gen_detach_pattern(ctx.rng))
     for feats, n in sp['run']:
         for _ in range(max(1, n * ctx.scale // (1 if ctx.scale == 1 else 2))):
             out.append(core_gen.gen_run_scenario(ctx.rng, feats))
